@@ -203,9 +203,11 @@ std::shared_ptr<const X> cached(const std::string &key, Make &&make) {
   c.objs[key] = p;
   return p;
 }
+// tag: equal points with a different tag are DISTINCT shared instances (the library must
+// treat them as one grid; comparing them takes the element-wise path)
 template <typename T>
-std::shared_ptr<const Grid<T>> opGrid(const json &pts) {
-  return cached<Grid<T>>(std::string("G") + Codec<T>::name + pts.dump(), [&] {
+std::shared_ptr<const Grid<T>> opGrid(const json &pts, int tag = 0) {
+  return cached<Grid<T>>(std::string("G") + std::to_string(tag) + Codec<T>::name + pts.dump(), [&] {
     auto *g = new Grid<T>(decVec<T>(pts));
     if (opCache().mode == 1) {
       opCache().refs[g->getData().get()] += 1;
@@ -219,8 +221,8 @@ std::shared_ptr<const Grid<T>> opGrid(const json &pts) {
   });
 }
 template <typename T, size_t O>
-std::shared_ptr<const Spline<T, O>> opSpline(const json &j, const Grid<T> &g) {
-  return cached<Spline<T, O>>(std::string("S") + Codec<T>::name + std::to_string(O) + j.dump(), [&] {
+std::shared_ptr<const Spline<T, O>> opSpline(const json &j, const Grid<T> &g, int tag = 0) {
+  return cached<Spline<T, O>>(std::string("S") + std::to_string(tag) + Codec<T>::name + std::to_string(O) + j.dump(), [&] {
     auto *s = new Spline<T, O>(mkSpline<T, O>(j, g));
     if (opCache().mode == 1) opCache().refs[s->getSupport().getGrid().getData().get()] += 1;
     return s;
